@@ -38,8 +38,11 @@ var Check = &ev.Check{
 		"(sequential) every ordered pair run back to back on one thread; (frame) K in {2,3} concurrent Sends with distinct payloads on one frame.Client against an echo frame.Server; (fanout) MultiServiceGenerator.Generate over 2..3 generators with disjoint and overlapping files. " +
 		"schedules: all interleavings at scheduling points (every shim mutex/waitgroup/atomic/pool operation and every harness Read/Write/ReadAt) with at most 2 preemptions, and every sync.Pool.Get answer (fresh object or any pooled one; non-default answers count as deviations, total deviation bound 2). " +
 		"A state is a node of the choice tree; a transition is one scheduler or pool decision; every execution runs the real code. Oracle: each operation's result equals its result when run alone; each Send(p) returns echo(p); merged files = union or the conflict error; no deadlock, no panic. " +
+		"Auxiliary (sampling, reported separately as race_pass_* and in the notes): the same operation bodies on real goroutines against the product built without the sync rewrite and with -race (40 / 600 rounds of all pairs plus a rotating third operation, 3 concurrent Sends, 3-way fan-out). " +
 		"distinct_nontrivial = scenarios whose exploration contained at least one execution where a thread received a recycled pool object or was preempted.",
 	Run:     run,
+	Prepare: racePrepare,
+	Finish:  raceFinish,
 	Workers: func(string) int { return 16 },
 	Budget: func(t string) time.Duration {
 		return map[string]time.Duration{"quick": 4 * time.Minute, "thorough": 25 * time.Minute}[t]
